@@ -22,10 +22,11 @@ func parseExpression(tokens []string) (*ExprNode, error) {
 		if err != nil {
 			return nil, err
 		}
-		if len(remaining) > 0 {
-			return nil, fmt.Errorf("unexpected token after expression: %s", remaining[0])
+		if len(remaining) == 0 {
+			return node, nil
 		}
-		return node, nil
+		// The CASE expression is the first operand of a larger expression, e.g.
+		// CASE WHEN n > 5 THEN 1 ELSE 0 END = 1: parse it as an operand below
 	}
 
 	node, remaining, err := parseOrExpression(tokens)
